@@ -67,6 +67,8 @@ class Scope(ast.NodeVisitor):
         self.locals_stack = []
         self.alias_stack = []
         self.param_stack = []
+        self.fn_stack = []
+        self.param_sites = {}
         # names bound by `<name> = vspace(...)`: VSpace objects, whose .add is the (pure) vector addition, not set.add
         self.vspace_names = {t.id for n in ast.walk(tree) if isinstance(n, ast.Assign) and isinstance(n.value, ast.Call) and isinstance(n.value.func, ast.Name)
                              and n.value.func.id == "vspace" for t in n.targets if isinstance(t, ast.Name)}
@@ -96,9 +98,11 @@ class Scope(ast.NodeVisitor):
         self.alias_stack.append(al)
         self.locals_stack.append(loc)
         a = node.args
+        self.fn_stack.append(node)
         self.param_stack.append({x.arg for x in a.posonlyargs + a.args + a.kwonlyargs} | ({a.vararg.arg} if a.vararg else set()) | ({a.kwarg.arg} if a.kwarg else set()))
         self.generic_visit(node)
         self.param_stack.pop()
+        self.fn_stack.pop()
         self.locals_stack.pop()
         self.alias_stack.pop()
         self.stack.pop()
@@ -158,7 +162,11 @@ class Scope(ast.NodeVisitor):
                 self.site("attr", node)
             elif isinstance(t, ast.Attribute) and self.stack and r is not None and self.is_local(r):
                 # an attribute store on an object RECEIVED from the caller (a parameter other than self) changes state that outlives the call
-                self.site("attr-param" if (self.param_stack and r in self.param_stack[-1]) else "attr", node)
+                isp = bool(self.param_stack and r in self.param_stack[-1])
+                if isp:
+                    self.param_sites[(self.q(), node.lineno)] = (self.fn_stack[-1].name, [a.arg for a in self.fn_stack[-1].args.posonlyargs + self.fn_stack[-1].args.args].index(r)
+                                                                 if r in [a.arg for a in self.fn_stack[-1].args.posonlyargs + self.fn_stack[-1].args.args] else -1)
+                self.site("attr-param" if isp else "attr", node)
 
     def visit_Assign(self, node):
         for t in node.targets:
@@ -239,6 +247,29 @@ def _callers(trees):
     return out
 
 
+def _constructor_helper(trees, fname, pos):
+    """True if every use of `fname` in the scanned files is a call made lexically inside a constructor (__init__ / initialize_root) that passes that
+    constructor's own `self` at position `pos`: the helper then writes the fresh object under construction, wherever its body was moved from."""
+    if pos < 0:
+        return False
+    ncalls = 0
+    for tree in trees.values():
+        calls_in_ctor = set()
+        for fn in ast.walk(tree):
+            if isinstance(fn, ast.FunctionDef) and fn.name in ("__init__", "initialize_root"):
+                for n in ast.walk(fn):
+                    if isinstance(n, ast.Call) and isinstance(n.func, ast.Name) and n.func.id == fname:
+                        if len(n.args) > pos and isinstance(n.args[pos], ast.Name) and n.args[pos].id == "self" and not any(isinstance(a, ast.Starred) for a in n.args[:pos + 1]):
+                            calls_in_ctor.add(id(n.func))
+                            ncalls += 1
+        for n in ast.walk(tree):
+            if isinstance(n, ast.Name) and n.id == fname and isinstance(n.ctx, ast.Load) and id(n) not in calls_in_ctor:
+                return False
+            if isinstance(n, ast.Attribute) and n.attr == fname:
+                return False
+    return ncalls > 0
+
+
 def _registration_only(fname, callers, allowed, depth=0):
     """True if the (private) function `fname` is called only from module level or from registration functions (transitively): it is then itself
     registration-time code, wherever its body was moved from (helper extraction must not change the verdict)."""
@@ -297,6 +328,8 @@ def run_frame(rep, tier):
                 why = "attribute store / counter draw outside the audited list"
             elif kind == "attr-param":
                 ok = (rel, q, kind) in AUDITED or q.split(".")[0].startswith("deprecated")
+                if not ok and (q, line) in sc.param_sites:
+                    ok = _constructor_helper(trees, *sc.param_sites[(q, line)])
                 why = ("attribute store on an object received as a parameter (not self): the object outlives the call, so later calls - with this or any other "
                        "caller - see state left by this one")
             elif kind == "foreign-global-state":
